@@ -170,7 +170,7 @@ def run(ctx, chk):
                     v = a[2][0] if a[0] == 'agg' else a
                     if not (T.is_int(v) and env.const_of(v) == 4):
                         okk, why = False, 'suspended arm ticks %s clocks, expected 4' % fmt(a)
-                if env.av(rsd).contains(run_discr):
+                if env.possible(rsd, run_discr):
                     okk, why = False, 'suspended arm can be taken while run_state == Run'
         if okk and seen_susp:
             chk.ok('C08.4', cfg + ':update', sample={'suspended': ['run_clock_cycles(4)', 'handle_interrupt']})
